@@ -189,6 +189,31 @@ def gen_case(rng, depth):
             'ops': sorted(set(e.ops)), 'depth': e.depth}
 
 
+def gen_coalesce_matrix(rng, quick):
+    """Directed (round 8, seed C04-m15): coalesce() over EVERY ordered pair of operand datatypes and (a sample of) the
+    triples, plain operands (column / constant / NULL literal), on one table with NULLs in every column: the compiler must
+    accept exactly the uniformly typed ones and announce that type."""
+    import itertools
+    cols = [('a', T_INT), ('b', T_DEC), ('c', T_STR), ('d', T_DATE), ('e', T_BOOL), ('f', T_OBJ), ('g', T_INT), ('h', T_DEC)]
+    out = []
+    triples = list(itertools.product(ANYT, repeat=3))
+    if quick:
+        triples = rng.sample(triples, 90)
+    for tys in list(itertools.product(ANYT, repeat=2)) + triples:
+        rows = []
+        for _ in range(3):
+            rows.append(tuple((None if rng.random() < 0.45 else rng.choice(OBJ_POOL)) if t == T_OBJ
+                              else values.gen_value(rng, PY[t], 0.45) for _, t in cols))
+        g = exprgen.Gen(rng, cols, max_depth=0, lib=True)
+        g.objcols = [(i, n) for i, (n, t) in enumerate(cols) if t == T_OBJ]
+        args = [operand(g, rng, t, 0) for t in tys]
+        e = mk(f'coalesce({", ".join(a.text for a in args)})', f'(ECoalesce {clist([a.coq for a in args])})', None,
+               f'mut:ECoalesce[{",".join(a.type for a in args)}]', *args)
+        out.append({'cols': cols, 'rows': rows, 'text': e.text, 'coq': e.coq, 'gen_type': e.type, 'kind': 'coalesce',
+                    'ops': sorted(set(e.ops)), 'depth': e.depth})
+    return out
+
+
 def statement(c):
     return f'SELECT {c["text"]} AS r FROM #t'
 
@@ -771,6 +796,9 @@ def run(tier, rng):
     n = 1200 if quick else 12000
     depth = 3 if quick else 4
     cases = [gen_case(rng, rng.randint(1, depth)) for _ in range(n)]
+    cmx = gen_coalesce_matrix(random.Random(rng.random()), quick)
+    cov['coalesce_operand_type_matrix_cases'] = len(cmx)
+    cases += cmx
     impl_out = core.pmap(run_impl, cases)
     model_out = model_many(cases)
     kinds, outcomes, ophist = {}, {}, {}
